@@ -49,6 +49,15 @@ def main():
                 line = [l for l in c.stdout.splitlines() if l.startswith('VIOLATION')]
                 det = dict(exit=c.returncode, violation_line=line[-1] if line else None, secs=round(time.time() - t, 1),
                            concrete_input=bool(line) and 'no-failing-input-found' not in line[-1])
+                # which layer raised the alarm: broken proof obligations / correspondences (Coq side) and / or the numeric prediction on the real code
+                try:
+                    rp = json.load(open(line[-1].split('replay=')[1].split()[0]))
+                    br = rp.get('broken') or []
+                    det['kind'] = rp.get('kind')
+                    det['broken_obligations'] = [b[:160] for b in br if b.startswith(('obligation', 'translator', 'generated model', 'theory', 'front-end', 'mkprops', 'unexpected axioms', 'forbidden'))][:6]
+                    det['broken_correspondences'] = [b[:160] for b in br if b.startswith('correspondence')][:6]
+                except Exception:
+                    pass
                 meta.setdefault('detected_by', {})[p] = det
                 print(sid, p, 'exit', c.returncode, 'concrete' if det['concrete_input'] else ('alarm-without-input' if line else 'MISSED'), det['secs'])
                 sys.stdout.flush()
